@@ -1,5 +1,6 @@
 import LeptosModel.Model.Transfer
 import LeptosModel.Gen.Transfer
+import LeptosModel.Gen.Base64
 /-!
 # C12 — data handed from server to client arrives intact and inert
 
@@ -2009,5 +2010,244 @@ theorem C12_old_json_string_roundtrip (p g : Nat → Bool) (site : Site) (hsite 
 example : (jsDecodeStringLiteral (emitLit asciiPrintable noExtend .asyncData
     (jsonStrEncode [0, 49, 60, 47, 115, 34, 92, 8232]))).bind jsonStrDecode
     = some [0, 49, 60, 47, 115, 34, 92, 8232] := by decide
+
+/-! ## H. codecs: the text form of a value decodes to the value; both server exits pair ids with values -/
+
+theorem sextet_roundtrip : ∀ i, i < 64 → sextetOf b64Std (sextetChar b64Std i) = some i := by decide
+
+theorem sextetChar_ascii (i : Nat) : sextetChar b64Std i < 128 := by
+  by_cases h : i < 64
+  · revert h; revert i; decide
+  · have : b64Std.length ≤ i := by simp [b64Std]; omega
+    simp [sextetChar, List.getElem?_eq_none this]
+
+/-- **base64 round trip**: `STANDARD_NO_PAD.decode(STANDARD_NO_PAD.encode(bytes)) == bytes` for every
+byte string, the empty one and every length modulo 3 included -/
+theorem b64_roundtrip (bs : List Nat) (h : ∀ b ∈ bs, b < 256) :
+    b64Dec b64Std (b64Enc b64Std bs) = some bs := by
+  fun_induction b64Enc b64Std bs with
+  | case1 => rfl
+  | case2 a =>
+    have ha : a < 256 := h a (by simp)
+    simp only [b64Dec, sextet_roundtrip (a / 4) (by omega), sextet_roundtrip (a % 4 * 16) (by omega)]
+    have : a % 4 * 16 % 16 = 0 := by omega
+    simp only [this, if_true]
+    congr 2; omega
+  | case3 a b =>
+    have ha : a < 256 := h a (by simp)
+    have hb : b < 256 := h b (by simp)
+    simp only [b64Dec, sextet_roundtrip (a / 4) (by omega),
+      sextet_roundtrip (a % 4 * 16 + b / 16) (by omega), sextet_roundtrip (b % 16 * 4) (by omega)]
+    have : b % 16 * 4 % 4 = 0 := by omega
+    simp only [this, if_true]
+    congr 2
+    · omega
+    · congr 1; omega
+  | case4 a b c rest ih =>
+    have ha : a < 256 := h a (by simp)
+    have hb : b < 256 := h b (by simp)
+    have hc : c < 256 := h c (by simp)
+    have ih' := ih (fun x hx => h x (by simp [hx]))
+    simp only [b64Dec, sextet_roundtrip (a / 4) (by omega),
+      sextet_roundtrip (a % 4 * 16 + b / 16) (by omega), sextet_roundtrip (b % 16 * 4 + c / 64) (by omega),
+      sextet_roundtrip (c % 64) (by omega), ih']
+    congr 2
+    · omega
+    · congr 1
+      · omega
+      · congr 1; omega
+
+theorem scalar_b64Enc (bs : List Nat) : Scalar (b64Enc b64Std bs) := by
+  have hs : ∀ i, sextetChar b64Std i < 1114112 ∧ ¬ (55296 ≤ sextetChar b64Std i ∧ sextetChar b64Std i ≤ 57343) := by
+    intro i; have := sextetChar_ascii i; omega
+  fun_induction b64Enc b64Std bs with
+  | case1 => intro x hx; simp at hx
+  | case2 a => intro x hx; simp at hx; rcases hx with rfl | rfl <;> exact hs _
+  | case3 a b => intro x hx; simp at hx; rcases hx with rfl | rfl | rfl <;> exact hs _
+  | case4 a b c rest ih =>
+    intro x hx
+    simp only [List.mem_cons] at hx
+    rcases hx with rfl | rfl | rfl | rfl | hx
+    · exact hs _
+    · exact hs _
+    · exact hs _
+    · exact hs _
+    · exact ih x hx
+
+/-- **binary codecs, end to end**: server `Vec<u8>::into_encoded_string` (unpadded standard base64),
+the emission site, the browser's string literal, client `<[u8]>::from_encoded_str`: the client gets
+exactly the server's bytes — every byte string (all 64 sextets, empty included), every site,
+every instantiation of the Unicode tables -/
+theorem C12_bytes_roundtrip (p g : Nat → Bool) (site : Site) (bs : List Nat) (h : ∀ b ∈ bs, b < 256) :
+    (jsDecodeStringLiteral (emitLit p g site (encBytes bs))).bind decBytes = some bs := by
+  unfold encBytes decBytes
+  rw [C12_roundtrip p g site _ (scalar_b64Enc bs)]
+  exact b64_roundtrip bs h
+
+/-- the string codec is the identity on both sides (`String::into_encoded_string`, `str::from_encoded_str`):
+this is `C12_roundtrip` -/
+theorem C12_str_codec_roundtrip (p g : Nat → Bool) (site : Site) (s : Str) (hs : Scalar s) :
+    jsDecodeStringLiteral (emitLit p g site s) = some s := C12_roundtrip p g site s hs
+
+/-- **an empty value is a value**: the empty string / the empty byte string is transmitted as `""`
+and the client finds it *present* under its id (`some []`, not `none`) -/
+theorem C12_empty_value_arrives (p g : Nat → Bool) (id : Nat) :
+    encBytes [] = [] ∧ decBytes [] = some [] ∧
+    (evalChunk (asyncChunk p g [(id, [])] []) JsState.empty).bind (fun st => st.read id) = some [] := by
+  refine ⟨rfl, rfl, ?_⟩
+  exact C12_read_back_single p g id [] (by intro c hc; simp at hc)
+
+/-- the base64 engines of both sides are what the source and the pinned `base64` crate say -/
+theorem C12_base64_matches_source :
+    Leptos.Gen.Base64.encodeAlphabet = b64Std ∧ Leptos.Gen.Base64.decodeAlphabet = b64Std ∧
+    Leptos.Gen.Base64.encodeEngine = Leptos.Gen.Base64.decodeEngine ∧
+    Leptos.Gen.Base64.encodePads = false ∧
+    Leptos.Gen.Base64.decodePaddingMode = [82, 101, 113, 117, 105, 114, 101, 78, 111, 110, 101] ∧
+    Leptos.Gen.Base64.decodeAllowsTrailingBits = false := by
+  decide
+
+/-- the URL-safe alphabet differs exactly at sextets 62 and 63 (why a mixed pair of engines loses
+every value whose base64 contains one of them) -/
+theorem b64_urlsafe_differs :
+    b64Enc b64UrlSafe [251, 255] ≠ b64Enc b64Std [251, 255] ∧
+    b64Dec b64Std (b64Enc b64UrlSafe [251, 255]) = none ∧
+    b64Dec b64Std (b64Enc b64UrlSafe [0, 16, 131]) = some [0, 16, 131] := by decide
+
+/-! ### `consume_buffers`: ids stay paired with their values for every completion order -/
+
+def entryPair (e : Entry) : Nat × Str := (e.id, e.val)
+
+/-- what a running `consume_buffers` will return: what it has, then what it still awaits -/
+def Consume.pairs (c : Consume) : List (Nat × Str) := c.acc ++ c.rest.map entryPair
+
+theorem consumeAdvance_pairs (l : List Entry) :
+    (consumeAdvance l).1 ++ (consumeAdvance l).2.map entryPair = l.map entryPair := by
+  induction l with
+  | nil => rfl
+  | cons e es ih =>
+    unfold consumeAdvance
+    split
+    · simp only [List.cons_append, List.map_cons, ih, entryPair]
+    · rfl
+
+theorem Consume.poll_pairs (c : Consume) : c.poll.pairs = c.pairs := by
+  simp only [Consume.poll, Consume.pairs, List.append_assoc, consumeAdvance_pairs]
+
+theorem completeIn_pairs (k : Nat) (l : List Entry) :
+    (completeIn k l).map entryPair = l.map entryPair := by
+  induction l with
+  | nil => rfl
+  | cons e es ih =>
+    unfold completeIn
+    split
+    · simp [entryPair]
+    · simp [ih]
+
+/-- what the application does while `consume_buffers` runs -/
+inductive COp where
+  | complete (key : Nat)                 -- a future gets its value, in any order
+  | cpoll                                -- the future is polled
+  | lateWrite (key id : Nat) (v : Str)   -- a `write_async` after the buffers were taken
+
+/-- one step; the second component is what a `cpoll` returned -/
+def consumeStep (s : Srv) : COp → Srv × Option (List (Nat × Str))
+  | .complete k => (s.complete k, none)
+  | .cpoll => (s.consumePoll.2, s.consumePoll.1)
+  | .lateWrite key id v => (s.writeAsync key id v, none)
+
+def consumeRun : Srv → List COp → List (List (Nat × Str))
+  | _, [] => []
+  | s, op :: ops =>
+    match (consumeStep s op).2 with
+    | some r => r :: consumeRun (consumeStep s op).1 ops
+    | none => consumeRun (consumeStep s op).1 ops
+
+/-- the pairs a (started or not yet started) `consume_buffers` is going to return -/
+def Srv.consumeView (s : Srv) : List (Nat × Str) :=
+  match s.consuming with
+  | some c => c.pairs
+  | none => s.sync ++ s.buf.map entryPair
+
+theorem consumePoll_view (s : Srv) :
+    (s.consumePoll.2).consumeView = s.consumeView ∧ (s.consumePoll.2).consuming.isSome = true ∧
+    ∀ r, s.consumePoll.1 = some r → r = s.consumeView := by
+  unfold Srv.consumePoll Srv.consumeView
+  cases hc : s.consuming with
+  | none =>
+    simp only []
+    refine ⟨?_, rfl, ?_⟩
+    · have := Consume.poll_pairs { rest := s.buf, acc := s.sync }
+      simpa [Consume.pairs] using this
+    · intro r hr
+      split at hr
+      · next he =>
+        simp only [Option.some.injEq] at hr
+        have := Consume.poll_pairs { rest := s.buf, acc := s.sync }
+        simp only [Consume.pairs] at this
+        rw [List.isEmpty_iff.mp he] at this
+        simpa [← hr] using this
+      · cases hr
+  | some c =>
+    simp only []
+    refine ⟨Consume.poll_pairs c, rfl, ?_⟩
+    intro r hr
+    split at hr
+    · next he =>
+      simp only [Option.some.injEq] at hr
+      have := Consume.poll_pairs c
+      simp only [Consume.pairs] at this
+      rw [List.isEmpty_iff.mp he] at this
+      simpa [← hr, Consume.pairs] using this
+    · cases hr
+
+theorem consumeStep_view (s : Srv) (op : COp) (hs : s.consuming.isSome = true) :
+    (consumeStep s op).1.consumeView = s.consumeView ∧ (consumeStep s op).1.consuming.isSome = true ∧
+    ∀ r, (consumeStep s op).2 = some r → r = s.consumeView := by
+  cases op with
+  | cpoll => exact consumePoll_view s
+  | complete k =>
+    obtain ⟨c, hc⟩ := Option.isSome_iff_exists.mp hs
+    simp [consumeStep, Srv.complete, Srv.consumeView, hc, Consume.pairs, completeIn_pairs]
+  | lateWrite key id v =>
+    obtain ⟨c, hc⟩ := Option.isSome_iff_exists.mp hs
+    simp [consumeStep, Srv.writeAsync, Srv.consumeView, hc]
+
+theorem consumeRun_view (ops : List COp) :
+    ∀ s : Srv, s.consuming.isSome = true → ∀ r ∈ consumeRun s ops, r = s.consumeView := by
+  induction ops with
+  | nil => intro s _ r hr; simp [consumeRun] at hr
+  | cons op ops ih =>
+    intro s hs r hr
+    obtain ⟨hv, hsome, hres⟩ := consumeStep_view s op hs
+    unfold consumeRun at hr
+    split at hr
+    · next r' hr' =>
+      rcases List.mem_cons.mp hr with h | h
+      · exact h ▸ hres r' hr'
+      · exact hv ▸ ih _ hsome r h
+    · exact hv ▸ ih _ hsome r hr
+
+/-- **`consume_buffers` pairs every id with its own value, for every completion order**: from the
+first poll on (which takes the buffers), whatever completions (in any order), polls and late
+writes follow, the pairs the future finally returns are exactly the `(id, value)` pairs of the
+buffer at that first poll, in creation order -/
+theorem C12_consume_pairs (s : Srv) (hs : s.consuming = none) (ops : List COp) :
+    ∀ r ∈ consumeRun s (.cpoll :: ops), r = s.sync ++ s.buf.map entryPair := by
+  intro r hr
+  obtain ⟨hv, hsome, hres⟩ := consumePoll_view s
+  have hview : s.consumeView = s.sync ++ s.buf.map entryPair := by simp [Srv.consumeView, hs]
+  unfold consumeRun at hr
+  simp only [consumeStep] at hr
+  split at hr
+  · next r' hr' =>
+    rcases List.mem_cons.mp hr with h | h
+    · exact hview ▸ h ▸ hres r' hr'
+    · exact hview ▸ hv ▸ consumeRun_view ops _ hsome r h
+  · exact hview ▸ hv ▸ consumeRun_view ops _ hsome r hr
+
+/-- non-vacuity: two values, the later-created one completes first; the pairs keep their ids -/
+example :
+    consumeRun ((Srv.new false).writeAsync 0 0 [97] |>.writeAsync 1 1 [98])
+      [.cpoll, .complete 1, .cpoll, .complete 0, .cpoll] = [[(0, [97]), (1, [98])]] := by decide
 
 end Leptos.Transfer
